@@ -182,16 +182,19 @@ IndexA == /\ cur # NoExpr /\ Numeric(cur) /\ Grow(Dyn("l", cur), [a |-> "Index"]
 ---------------------------------------------------------------------------
 (* the manager side: assignment, in-place operators, operand changes *)
 
-(* recompute the defined targets after contents changed: t1 before t2 when t2 reads t1 (never the reverse).        *)
+(* recompute the defined targets after contents changed: t1 before t2 when t2 reads t1 (never the reverse).  A     *)
+(* target is re-evaluated when its REPORTED dependencies (with enclosing containers) meet what was written, so a   *)
+(* definition reading s['l'][0] is re-run (and may raise again) when s['l'][1] is assigned.                       *)
 (* When both are triggered independently and one of them raises, which of the two ran first is not determined by  *)
 (* the data flow (amb): such steps are not enumerated.                                                           *)
 Recompute(m, D, changed) ==
-  LET trig1 == D["t1"] # NoExpr /\ Reads(D["t1"]) \cap changed # {}
+  LET Hit(e, ch) == Locs(e) \cap UNION {Chain(x) : x \in ch} # {}      \* as Manager.tla's Triggered: reported dependencies meet the chains of what was written
+      trig1 == D["t1"] # NoExpr /\ Hit(D["t1"], changed)
       r1 == IF trig1 THEN Eval(D["t1"], m) ELSE m["t1"]
       ok1 == ~IsRaise(r1)
       m1 == IF ok1 THEN [m EXCEPT !["t1"] = r1] ELSE m
       ch2 == IF trig1 THEN changed \cup {"t1"} ELSE changed
-      trig2 == D["t2"] # NoExpr /\ Reads(D["t2"]) \cap ch2 # {}
+      trig2 == D["t2"] # NoExpr /\ Hit(D["t2"], ch2)
       dep21 == D["t2"] # NoExpr /\ "t1" \in Reads(D["t2"])
       r2 == IF trig2 THEN Eval(D["t2"], m1) ELSE m1["t2"]
   IN [m |-> IF ok1 /\ ~IsRaise(r2) THEN [m1 EXCEPT !["t2"] = r2] ELSE m1,
